@@ -336,6 +336,19 @@ def run(F, R, tier):
         R.ob("C16-c", "a declaration is ambient if it or anything enclosing it is declared", n["op"] == "||",
              "`%s`: a `declare namespace` inside ordinary code (or ordinary members inside an ambient one) would get the wrong ambient flag, which decides whether bodies are kept" % expr_text(n), where(n))
 
+    # every star re-export of a module takes part in export resolution (`export type *` included):
+    # the list handed to the resolver is the module's re_exports, unfiltered
+    for fn in ("symbols::analyzer::ModuleInfoRef::re_export_all_specifiers", "symbols::analyzer::ModuleInfoRef::re_export_all_nodes"):
+        bs_ = [b for b in F.bodies if b["path"] == fn]
+        if not bs_:
+            R.ob("C16-c", "%s found" % fn.split("::")[-1], False, "accessor moved", "src/symbols/analyzer.rs")
+            continue
+        b = bs_[0]
+        reads = [n for n in b["_nodes"] if n.get("k") == "Field" and n["field"] == "re_exports"]
+        filt = [n for n in b["_nodes"] if n.get("k") == "MethodCall" and n["name"] in ("filter", "filter_map", "skip", "take", "skip_while", "take_while", "step_by") and not (n["name"] == "filter_map" and False)]
+        R.ob("C16-c", "%s hands out every star re-export" % fn.split("::")[-1], len(reads) >= 1 and not filt,
+             "%s drops some of the module's `export * from` statements (`%s`): names forwarded by them vanish from the resolved export set and definitions behind them become unresolved" % (fn.split("::")[-1], expr_text(filt[0])[:50] if filt else "no read of re_exports"), where(filt[0]) if filt else b["file"])
+
     # ---------------- C16-e ------------------------------------------------
     from . import c09
     c09.prefer_types_sites(F, R, tag="C16-e")
